@@ -160,6 +160,9 @@ impl Chunky for QChunk {
     fn merge_(&mut self, _o: &Self) {
         unreachable!("Quantile has no merge")
     }
+    fn has_merge() -> bool {
+        false
+    }
     fn add_item(&mut self, i: f64) {
         average::Estimate::add(&mut self.0, i)
     }
@@ -179,3 +182,148 @@ impl Chunky for QChunk {
         fparse(v)
     }
 }
+
+// ---------------------------------------------------------------------------------------
+// serde access (C18)
+
+pub trait SerChunky: Chunky {
+    fn to_json(&self) -> Result<String, String>;
+    fn from_json(s: &str) -> Result<Self, String>;
+}
+impl<T: UniMerge + UniIngest> SerChunky for U<T> {
+    fn to_json(&self) -> Result<String, String> {
+        serde_json::to_string(&self.0).map_err(|e| e.to_string())
+    }
+    fn from_json(s: &str) -> Result<Self, String> {
+        serde_json::from_str(s).map(U).map_err(|e| e.to_string())
+    }
+}
+impl<H: Hist> SerChunky for HistChunk<H> {
+    fn to_json(&self) -> Result<String, String> {
+        serde_json::to_string(&self.0).map_err(|e| e.to_string())
+    }
+    fn from_json(s: &str) -> Result<Self, String> {
+        serde_json::from_str(s).map(HistChunk).map_err(|e| e.to_string())
+    }
+}
+macro_rules! impl_ser_plain {
+    ($t:ty) => {
+        impl SerChunky for $t {
+            fn to_json(&self) -> Result<String, String> {
+                serde_json::to_string(self).map_err(|e| e.to_string())
+            }
+            fn from_json(s: &str) -> Result<Self, String> {
+                serde_json::from_str(s).map_err(|e| e.to_string())
+            }
+        }
+    };
+}
+impl_ser_plain!(WeightedMean);
+impl_ser_plain!(WeightedMeanWithError);
+impl_ser_plain!(Covariance);
+
+/// Quantile with a p chosen by a const index into a small grid.
+#[derive(Clone)]
+pub struct QP<const I: usize>(pub average::Quantile);
+pub const QP_GRID: [f64; 4] = [0.0, 0.25, 0.5, 0.99];
+impl<const I: usize> Chunky for QP<I> {
+    type Item = f64;
+    const NAME: &'static str = ["Quantile(p=0)", "Quantile(p=0.25)", "Quantile(p=0.5)", "Quantile(p=0.99)"][I];
+    fn fresh() -> Self {
+        QP(average::Quantile::new(QP_GRID[I]))
+    }
+    fn collect(items: &[f64]) -> Self {
+        let mut q = Self::fresh();
+        for x in items {
+            average::Estimate::add(&mut q.0, *x);
+        }
+        q
+    }
+    fn merge_(&mut self, _o: &Self) {
+        unreachable!("Quantile has no merge")
+    }
+    fn has_merge() -> bool {
+        false
+    }
+    fn add_item(&mut self, i: f64) {
+        average::Estimate::add(&mut self.0, i)
+    }
+    fn item_bits(i: &f64) -> Vec<u64> {
+        vec![i.to_bits()]
+    }
+    fn dbg(&self) -> String {
+        format!("{:?}", self.0)
+    }
+    fn observe_(&self) -> Obs {
+        observe_quantile(&self.0)
+    }
+    fn item_json(i: &f64) -> Value {
+        fshow(*i)
+    }
+    fn item_parse(v: &Value) -> Option<f64> {
+        fparse(v)
+    }
+}
+impl<const I: usize> SerChunky for QP<I> {
+    fn to_json(&self) -> Result<String, String> {
+        serde_json::to_string(&self.0).map_err(|e| e.to_string())
+    }
+    fn from_json(s: &str) -> Result<Self, String> {
+        serde_json::from_str(s).map(QP).map_err(|e| e.to_string())
+    }
+}
+
+// ---------------------------------------------------------------------------------------
+// ingestion paths (C20)
+
+pub trait Ingest: Chunky {
+    fn dflt() -> Self;
+    fn collect_vals(items: &[Self::Item]) -> Self;
+    fn collect_refs(items: &[Self::Item]) -> Self;
+    /// false: the type has no such Extend impl
+    fn extend_vals(&mut self, items: &[Self::Item]) -> bool;
+    fn extend_refs(&mut self, items: &[Self::Item]) -> bool;
+}
+impl<T: UniMerge + UniIngest> Ingest for U<T> {
+    fn dflt() -> Self {
+        U(T::dflt())
+    }
+    fn collect_vals(items: &[f64]) -> Self {
+        U(T::collect_vals(items))
+    }
+    fn collect_refs(items: &[f64]) -> Self {
+        U(T::collect_refs(items))
+    }
+    fn extend_vals(&mut self, items: &[f64]) -> bool {
+        self.0.extend_vals(items)
+    }
+    fn extend_refs(&mut self, items: &[f64]) -> bool {
+        self.0.extend_refs(items)
+    }
+}
+macro_rules! impl_ingest_pair {
+    ($t:ty) => {
+        impl Ingest for $t {
+            fn dflt() -> Self {
+                Default::default()
+            }
+            fn collect_vals(items: &[(f64, f64)]) -> Self {
+                items.iter().copied().collect()
+            }
+            fn collect_refs(items: &[(f64, f64)]) -> Self {
+                items.iter().collect()
+            }
+            fn extend_vals(&mut self, items: &[(f64, f64)]) -> bool {
+                self.extend(items.iter().copied());
+                true
+            }
+            fn extend_refs(&mut self, items: &[(f64, f64)]) -> bool {
+                self.extend(items.iter());
+                true
+            }
+        }
+    };
+}
+impl_ingest_pair!(WeightedMean);
+impl_ingest_pair!(WeightedMeanWithError);
+impl_ingest_pair!(Covariance);
